@@ -207,7 +207,7 @@ func runC09(c *Ctx) {
 	c09Cycle(c)
 
 	// ---- C09.5 guarded supplier-map inserts
-	c09SupplierMap(c)
+	c09SupplierMap(c, "C09.5")
 
 	// ---- C09.6 safety net in Build
 	if build := L.fn(genPkg, "(*Graph).Build"); build != nil {
@@ -446,7 +446,7 @@ func c09Cycle(c *Ctx) {
 }
 
 // c09SupplierMap: inserts into the type-string -> provider map are guarded by a lookup of the same key.
-func c09SupplierMap(c *Ctx) {
+func c09SupplierMap(c *Ctx, rule string) {
 	L := c.L
 	ng := L.fn(genPkg, "NewGraph")
 	if ng == nil {
@@ -503,14 +503,14 @@ func c09SupplierMap(c *Ctx) {
 											guard = fmt.Sprintf("lookup in block %d; not-found edge -> block %d dominates the insert in block %d; found edge reaches an error naming the key", iff.Block().Index, notFound.Index, b.Index)
 										} else {
 											guard = ""
-											c.fail("C09.5", fnName(f2)+":duplicate-not-refused", L.pos(x.Pos()), "the found edge of the duplicate check does not lead to an error that names the type")
+											c.fail(rule, fnName(f2)+":duplicate-not-refused", L.pos(x.Pos()), "the found edge of the duplicate check does not lead to an error that names the type")
 										}
 									}
 								}
 							}
 						}
 					}
-					c.check(guard != "", "C09.5", fmt.Sprintf("%s:supplier-insert#%d", fnName(f2), nIns), L.pos(x.Pos()),
+					c.check(guard != "", rule, fmt.Sprintf("%s:supplier-insert#%d", fnName(f2), nIns), L.pos(x.Pos()),
 						"a supplier is recorded only when no other provider already supplies that type; otherwise generation fails naming the type", guard)
 				case *ssa.Lookup:
 					if isSupplier(x.X) != nil {
@@ -547,15 +547,15 @@ func c09SupplierMap(c *Ctx) {
 				s.stack[ng] = true
 				for _, t := range s.eval(key) {
 					ok, why := injectiveTypeKey(L, t)
-					c.check(ok, "C09.5", fmt.Sprintf("%s:type-key", fnName(f2)), L.pos(in.Pos()),
+					c.check(ok, rule, fmt.Sprintf("%s:type-key", fnName(f2)), L.pos(in.Pos()),
 						"requirements and suppliers are matched by a key that distinguishes types from different packages", why)
 				}
 			}
 		}
 	}
-	c.floor("C09.5", "keyed operations on the supplier/argument maps", nKeys, 8)
-	c.floor("C09.5", "inserts into the supplier map", nIns, 2)
-	c.floor("C09.5", "lookups of the supplier map", nLook, 5)
+	c.floor(rule, "keyed operations on the supplier/argument maps", nKeys, 8)
+	c.floor(rule, "inserts into the supplier map", nIns, 2)
+	c.floor(rule, "lookups of the supplier map", nLook, 5)
 
 	// orphan Struct: the struct-type lookup's not-found edge returns an error
 	okOrphan := false
@@ -589,7 +589,7 @@ func c09SupplierMap(c *Ctx) {
 			}
 		}
 	}
-	c.check(okOrphan, "C09.5", "NewGraph:orphan-struct", L.pos(ng.Pos()), "a Struct expansion whose struct type has no supplier is refused with an error naming the type", "not-found edge of the StructType lookup returns fmt.Errorf(..., key)")
+	c.check(okOrphan, rule, "NewGraph:orphan-struct", L.pos(ng.Pos()), "a Struct expansion whose struct type has no supplier is refused with an error naming the type", "not-found edge of the StructType lookup returns fmt.Errorf(..., key)")
 }
 
 // reachableNoLoop: reachable from `from` to `to` without passing through `stop` (the lookup block: the next loop iteration).
